@@ -579,7 +579,7 @@ impl Struct {
 }
 
 // more like an arbitrary predicate. want to add subscripted types to this later
-#[derive(Debug, Clone)]
+#[derive(Clone)]
 pub enum ObjType {
     Null,
     Int,
@@ -599,6 +599,14 @@ pub enum ObjType {
     StructInstance,
     Struct(Struct),
     Satisfying(REnv, Box<Func>),
+}
+
+// Not derived: Satisfying holds an environment, and that environment can hold a variable declared
+// with this very type (x: satisfying(f) = ...), so printing it structurally never terminates.
+impl Debug for ObjType {
+    fn fmt(&self, fmt: &mut std::fmt::Formatter<'_>) -> Result<(), std::fmt::Error> {
+        write!(fmt, "{}", self.name())
+    }
 }
 
 impl ObjType {
